@@ -454,7 +454,7 @@ pub fn check_main(def: &PropDef, tier: Tier) -> i32 {
         let single = replay_in_fresh_process(&full_path);
         let final_path = match single {
             Ok(Some(cl)) if cl == viol.clause => {
-                let (min, execs) = shrink_record(def, rec.clone(), &viol.clause, 2000);
+                let (min, execs) = shrink_record(def, rec.clone(), &viol.clause, 6000);
                 let v = check_record(def, &min);
                 let minfile = ReplayFile {
                     minimised: true,
